@@ -35,6 +35,18 @@ CSR_DWS = (1, 2, 3, 4, 5, 8, 8, 13, 16)
 
 @st.composite
 def csr_layout(draw, max_regs=6, dws=CSR_DWS, overlaps=True):
+    if draw(st.integers(0, 4)) == 0:
+        # "packed odd" family: registers of 2,3,5,6,7 words placed back to back without natural
+        # alignment, so that shadow chunks wrap around onto neighbouring registers (nested aliasing)
+        dw = draw(st.sampled_from([1, 2, 4, 8]))
+        n = draw(st.integers(2, max_regs))
+        regs = [{"w": dw * draw(st.sampled_from([1, 2, 3, 3, 5, 6, 6, 7])) - draw(st.sampled_from([0, 0, 1]) if dw > 1 else st.just(0)),
+                 "acc": draw(st.sampled_from(["r", "w", "rw", "rw", "rw"])), "mode": "gap",
+                 "gap": draw(st.sampled_from([0, 0, 0, 1, 2, 3])), "pad": 0} for _ in range(n)]
+        lay = {"dw": dw, "al": 0, "regs": regs, "extra_aw": draw(st.integers(0, 1))}
+        if overlaps:
+            lay["ov"] = draw(st.sampled_from([None, 0, 1, 1, 2, 3]))
+        return lay
     dw = draw(st.sampled_from(dws))
     al = draw(st.sampled_from([0, 0, 0, 1, 2]))
     n = draw(st.integers(1, max_regs))
@@ -253,3 +265,126 @@ def wb_geometry(draw, max_aw=7, min_aw=0):
     dw = draw(st.sampled_from([8, 16, 32, 32, 64]))
     g = draw(st.sampled_from([x for x in (8, 16, 32, 64) if x <= dw]))
     return {"aw": draw(st.integers(min_aw, max_aw)), "dw": dw, "g": g, "feat": draw(wb_features())}
+
+
+# ----------------------------------------------------------------------------- decoder configs
+# Built bottom-up so that the windows fit by construction: subordinates are drawn first, their
+# placement is planned with plain arithmetic, and the decoder is sized to hold them.
+
+@st.composite
+def csr_decoder_config(draw, max_subs=5, max_sub_aw=5, dws=CSR_DWS):
+    dw = draw(st.sampled_from(dws))
+    al = draw(st.sampled_from([0, 0, 1, 2, 3]))
+    n = draw(st.integers(0, max_subs))
+    subs = [{"aw": draw(st.integers(1, max_sub_aw)), "named": draw(st.booleans()),
+             "mode": draw(st.sampled_from(["imp", "imp", "align", "slot"])),
+             "gap": draw(st.integers(0, 2)), "k": draw(st.integers(0, 4))} for _ in range(n)]
+    return {"dw": dw, "al": al, "subs": subs, "extra_aw": draw(st.integers(0, 1)),
+            "squeeze": draw(st.integers(0, 11)) == 0}
+
+
+def plan_windows(al, subs_maw, subs):
+    """Allocator arithmetic for ratio-1 windows. Returns (end, [(start, end_reserved)])."""
+    cursor, out = 0, []
+    for maw, s in zip(subs_maw, subs):
+        eff = max(al, maw)
+        if s["mode"] == "align":
+            cursor = align_up(cursor, max(al, s["k"]))
+        start = align_up(cursor, eff)
+        if s["mode"] == "slot":
+            start += s["gap"] << eff
+        end = start + (1 << eff)
+        out.append((start, end))
+        cursor = end
+    return cursor, out
+
+
+def build_csr_decoder(cfg, sub_factory=None):
+    """-> (decoder, [sub interfaces], plan [(start, reserved_end)]). May raise ValueError when
+    cfg['squeeze'] made the decoder too small (a deliberate refusal)."""
+    maws = [s["aw"] for s in cfg["subs"]]
+    end, plan = plan_windows(cfg["al"], maws, cfg["subs"])
+    aw = max(1, ceil_log2(max(end, 1))) + cfg["extra_aw"]
+    if cfg["squeeze"] and aw > 1:
+        aw -= 1
+    dec = csr.Decoder(addr_width=aw, data_width=cfg["dw"], alignment=cfg["al"])
+    ifaces = []
+    for i, (s, (ps, pe)) in enumerate(zip(cfg["subs"], plan)):
+        if sub_factory is not None:
+            iface = sub_factory(i, s)
+        else:
+            iface = csr.Interface(addr_width=s["aw"], data_width=cfg["dw"], path=(f"sub{i}",))
+            iface.memory_map = MemoryMap(addr_width=s["aw"], data_width=cfg["dw"])
+        kw = {}
+        if s["named"]:
+            kw["name"] = (f"w{i}",)
+        if s["mode"] == "align":
+            dec.align_to(s["k"])
+        if s["mode"] == "slot":
+            kw["addr"] = ps
+        got = dec.add(iface, **kw)
+        ifaces.append(iface)
+    return dec, ifaces, plan
+
+
+@st.composite
+def wb_decoder_config(draw, max_subs=5, max_sub_aw=4):
+    dw = draw(st.sampled_from([8, 16, 32, 32, 64]))
+    g = draw(st.sampled_from([x for x in (8, 16, 32, 64) if x <= dw]))
+    feat = draw(wb_features())
+    al = draw(st.sampled_from([0, 0, 1, 2]))
+    gbits = (dw // g).bit_length() - 1
+    n = draw(st.integers(0, max_subs))
+    subs = []
+    for _ in range(n):
+        sparse = draw(st.sampled_from([False, False, True]))
+        sfeat = draw(wb_features())
+        if draw(st.integers(0, 9)) > 0:
+            sfeat = [f for f in sfeat if f not in ("err", "rty", "stall") or f in feat]
+        if not sparse:
+            sub = {"aw": draw(st.integers(0, max_sub_aw)), "dw": dw, "g": g}
+        else:
+            sdw = draw(st.sampled_from([x for x in (8, 16, 32, 64) if x <= g]))
+            sub = {"aw": draw(st.integers(gbits, gbits + max_sub_aw)), "dw": sdw, "g": sdw}
+        sub.update(feat=sfeat, sparse=sparse, named=draw(st.booleans()),
+                   mode=draw(st.sampled_from(["imp", "imp", "align", "slot"])),
+                   gap=draw(st.integers(0, 2)), k=draw(st.integers(0, 4)))
+        subs.append(sub)
+    return {"dw": dw, "g": g, "feat": feat, "al": al, "subs": subs,
+            "extra_aw": draw(st.integers(0, 1)), "squeeze": draw(st.integers(0, 11)) == 0,
+            "zero_aw": draw(st.integers(0, 3)) == 0}
+
+
+def wb_sub_map_aw(s):
+    return max(1, s["aw"] + ((s["dw"] // s["g"]).bit_length() - 1))
+
+
+def build_wb_decoder(cfg):
+    """-> (decoder, [sub interfaces], plan in decoder-map (granule) addresses)."""
+    gbits = (cfg["dw"] // cfg["g"]).bit_length() - 1
+    maws = [wb_sub_map_aw(s) for s in cfg["subs"]]
+    end, plan = plan_windows(cfg["al"], maws, cfg["subs"])
+    needed = max(ceil_log2(max(end, 1)), gbits)
+    aw = max(0, needed - gbits) + cfg["extra_aw"]
+    if cfg["squeeze"] and aw > 0:
+        aw -= 1
+    # a decoder without address bits still has a 1-bit memory map: one 2-granule window fits
+    if cfg.get("zero_aw") and gbits == 0 and needed <= 1:
+        aw = 0
+    dec = wishbone.Decoder(addr_width=aw, data_width=cfg["dw"], granularity=cfg["g"],
+                           features=cfg["feat"], alignment=cfg["al"])
+    ifaces = []
+    for i, (s, (ps, pe)) in enumerate(zip(cfg["subs"], plan)):
+        iface = wishbone.Interface(addr_width=s["aw"], data_width=s["dw"], granularity=s["g"],
+                                   features=s["feat"], path=(f"sub{i}",))
+        iface.memory_map = MemoryMap(addr_width=wb_sub_map_aw(s), data_width=s["g"])
+        kw = {"sparse": s["sparse"]}
+        if s["named"]:
+            kw["name"] = (f"w{i}",)
+        if s["mode"] == "align":
+            dec.align_to(s["k"])
+        if s["mode"] == "slot":
+            kw["addr"] = ps
+        dec.add(iface, **kw)
+        ifaces.append(iface)
+    return dec, ifaces, plan
